@@ -120,7 +120,19 @@ def setup():
         model, values, rnd_fn = a[0], a[1], a[2]
         if exc is not None or model.extrapolate:
             return
-        from fontTools.misc.roundTools import noRound
+        from fontTools.misc.roundTools import noRound, otRound
+        if rnd_fn is not noRound and (rnd_fn is round or rnd_fn is otRound) and all(isinstance(v, int) for v in values):
+            # rounded deltas: every (integer) master is reproduced at its own location to within one rounding
+            _cur["n"] += 1
+            sups = supports_of(model)
+            for i, loc in enumerate(model.origLocations):
+                tot = sum((F(d) * R.region_scalar(loc, sup) for d, sup in zip(res, sups)), F(0))
+                if abs(tot - values[i]) > F(1, 2) + F(1, 10 ** 9):
+                    _rep("VariationModel.getDeltas", "rounded deltas do not reproduce a master within one rounding",
+                         locations=model.origLocations, values=list(values), master=i, got=float(tot), want=values[i])
+                    return
+            _cur["keys"].add("model/rounded/m%d" % len(values))
+            return
         if rnd_fn is not noRound or not all(_num(v) for v in values):
             return
         _cur["n"] += 1
@@ -695,9 +707,11 @@ def _drv_stores(case, rnd, ctx):
         # OnlineVarStoreBuilder round trip: masters -> store -> evaluate
         na = rnd.randrange(1, 3)
         ax2 = ["A", "B"][:na]
-        vals = [F(-1), F(-1, 2), F(1, 2), F(1)]
+        # also quarter and eighth positions (exact in F2Dot14): supports of intermediate masters then overlap with fractional
+        # scalars, so the order in which deltas are rounded matters
+        vals = [F(-1), F(-1, 2), F(1, 2), F(1)] if rnd.random() < 0.4 else [F(-1), F(-3, 4), F(-1, 2), F(-1, 4), F(1, 4), F(1, 2), F(3, 4), F(1), F(1, 8), F(-5, 8)]
         locs, seen = [{}], set()
-        for _m in range(rnd.randrange(1, 5)):
+        for _m in range(rnd.randrange(1, 7)):
             p = {a: float(rnd.choice(vals)) for a in rnd.sample(ax2, rnd.randrange(1, na + 1))}
             k = tuple(sorted(p.items()))
             if k not in seen:
@@ -759,6 +773,16 @@ def _drv_stores(case, rnd, ctx):
         for mv, base, vidx in rows:
             deltas = model.getDeltas(mv, round=round)
             ctx.judged()
+            # integer masters stored with rounded deltas: every master is reproduced at its own location to within
+            # one rounding (0.5) -- deltas are rounded one after the other so that later ones absorb earlier errors
+            for mi, l in enumerate(locs):
+                locv = [F(l.get(a, 0)) for a in ax2]
+                gotm = R.eval_varstore(parsed, vidx, locv) + base
+                if abs(gotm - mv[mi]) > F(1, 2):
+                    ctx.violation({"kind": "variation", "func": "OnlineVarStoreBuilder", "what": "a master is not reproduced within one rounding at its own location"},
+                                  "OnlineVarStoreBuilder: master %d reproduced as %s instead of %s" % (mi, float(gotm), mv[mi]),
+                                  {"locations": repr(locs), "masters": mv, "at": repr(l), "got": float(gotm), "want": mv[mi]})
+                    return
             for l in locs + [{a: 0.25 for a in ax2}]:
                 locv = [F(l.get(a, 0)) for a in ax2]
                 got = R.eval_varstore(parsed, vidx, locv) + base
@@ -812,7 +836,7 @@ def _drv_multistore(case, rnd, ctx):
         for _mod in range(rnd.randrange(1, 4)):
             locs, seen = [{}], set()
             for _m in range(rnd.randrange(1, 5)):
-                pl = {a: float(rnd.choice(LAT)) for a in rnd.sample(axes, rnd.randrange(1, na + 1))}
+                pl = {a: float(rnd.choice(LAT if na > 2 else LAT + [F(1, 4), F(3, 4), F(-1, 4), F(-3, 4), F(1, 8)])) for a in rnd.sample(axes, rnd.randrange(1, na + 1))}
                 k = tuple(sorted(pl.items()))
                 if k not in seen:
                     seen.add(k)
@@ -859,8 +883,8 @@ def _drv_multistore(case, rnd, ctx):
                 lf = {k: F(v) for k, v in l.items()}
                 var = _mv_eval(store, axes, vidx, lf) or [F(0)] * len(base)
                 ctx.judged()
-                # each of the <=len(locs) deltas is rounded once: error at a master is at most 0.5 per contributing delta
-                bound = F(len(locs), 2)
+                # deltas are rounded one after the other, later ones absorbing earlier errors: one rounding at a master
+                bound = F(1, 2)
                 if any(abs(F(bv) + v - F(m_)) > bound for bv, v, m_ in zip(base, var, mv[li])):
                     ctx.violation({"kind": "variation", "func": "OnlineMultiVarStoreBuilder", "what": "stored tuples do not reproduce a master at its own location"},
                                   "OnlineMultiVarStoreBuilder round trip differs at master %d" % li,
